@@ -189,6 +189,11 @@ func classify(prop string, o *outcome) (nontrivial bool, feature uint64, classes
 	add(slowFSM, "slow-fsm")
 	add(len(r.P.Proto) > 0, "protocol-version-2-servers")
 	add(has("fresh-server-joins"), "fresh-server-joins")
+	add(has("newest-snapshot-unreadable-at-start-up"), "newest-snapshot-unreadable-at-start-up")
+	add(has("leader-with-a-slow-disk-leaves-with-calls-in-flight"), "leader-with-a-slow-disk")
+	add(has("restore-with-a-membership-change-in-flight"), "restore-refused-with-calls-in-flight")
+	add(has("follower-demoted-before-the-cut"), "follower-demoted-before-the-cut")
+	add(has("snapshot-requested-of-a-busy-state-machine"), "snapshot-requested-of-a-busy-state-machine")
 	add(anyPrefix(f, "log-read-error@"), "log-read-errors")
 	add(has("stale-installsnapshot-from-a-deposed-leader"), "stale-installsnapshot-from-a-deposed-leader")
 	add(has("client-call-during-a-slow-leadership-transfer"), "client-call-during-a-slow-leadership-transfer")
